@@ -21,6 +21,8 @@ def check(tree, rep, tier='quick', seed=0):
     l2_effects(tree, rep)
     l2b_shared_iterators(tree, rep)
     l2c_generators_consumed_once(tree, rep)
+    from ..linerules import l6_iterated_sequences_are_not_edited
+    l6_iterated_sequences_are_not_edited(tree, rep)
     from ..linerules import l3_lines_are_read_not_recomputed
     l3_lines_are_read_not_recomputed(tree, rep)
     from .c17 import one_definition_per_name, get_catalogue
